@@ -147,13 +147,14 @@ pub fn names() -> Names {
     }
 }
 
-fn build(nm: &Names, funds: u128) -> SApp {
+fn build(nm: &Names, cfg: &Cfg) -> SApp {
+    let funds = cfg.funds;
     let block = mock_env().block;
     AppBuilder::new().with_storage(SnapStorage::new()).build(|router, api, storage| {
         for d in &nm.delegators {
             router.bank.init_balance(storage, &Addr::unchecked(d), vec![coin(funds, DENOM), coin(5, FOREIGN)]).unwrap();
         }
-        router.staking.setup(storage, StakingInfo { bonded_denom: DENOM.into(), unbonding_time: UNBONDING, apr: Decimal::percent(APR_PCT as u64) }).unwrap();
+        router.staking.setup(storage, StakingInfo { bonded_denom: DENOM.into(), unbonding_time: cfg.unbonding, apr: Decimal::percent(APR_PCT as u64) }).unwrap();
         for (i, v) in nm.validators.iter().take(2).enumerate() {
             router
                 .staking
@@ -305,6 +306,11 @@ pub struct Cfg {
     pub check_rewards: bool,
     pub prop: String,
     pub funds: u128,
+    /// unbonding period in seconds (a staking parameter fixed at setup)
+    pub unbonding: u64,
+    /// payouts of matured unbondings are judged under this property too (C16: only where the
+    /// exploration is built so that what is paid is decided by the slashes alone)
+    pub payout_is_home: bool,
 }
 
 fn pct_rat(p: u32) -> Rat {
@@ -340,7 +346,7 @@ pub fn step(app: &mut SApp, nm: &Names, st: &SState, op: &SOp, cfg: &Cfg, ops_al
         v
     };
     let mut path = st.path.clone();
-    let case = |what: &str, extra: Value| json!({"engine": "staking", "history": hist(&st.path, op), "clause": what, "detail": extra});
+    let case = |what: &str, extra: Value| json!({"engine": "staking", "history": hist(&st.path, op), "clause": what, "detail": extra, "unbonding_s": cfg.unbonding, "initial_funds": cfg.funds.to_string()});
     let d_addr = |d: u8| Addr::unchecked(&nm.delegators[d as usize]);
     let denom_of = |x: u8| if x == 0 { DENOM } else { FOREIGN };
     // ---- run the operation
@@ -513,7 +519,7 @@ pub fn step(app: &mut SApp, nm: &Names, st: &SState, op: &SOp, cfg: &Cfg, ops_al
                 } else {
                     h.shares.insert((*d, *v), s);
                 }
-                h.queue.push(QEntry { d: *d, v: *v, amount: Rat::int(*amt), payout_at: h.now + UNBONDING as u128 * 1_000_000_000, slashes: 0 });
+                h.queue.push(QEntry { d: *d, v: *v, amount: Rat::int(*amt), payout_at: h.now + cfg.unbonding as u128 * 1_000_000_000, slashes: 0 });
                 if post.deleg[&(*d, *v)] == 0 {
                     h.rewards.remove(&(*d, *v));
                 }
@@ -795,7 +801,7 @@ fn state_key(s: &SState) -> u128 {
 }
 
 pub fn explore(ctx: &Ctx, nm: &Names, alpha: &[SOp], max_depth: usize, cfg: &Cfg, keep_all: bool, max_states: usize) -> ExpOut {
-    let mut app0 = build(nm, cfg.funds);
+    let mut app0 = build(nm, cfg);
     let obs0 = observe(&app0, nm).unwrap_or_else(|e| machinery_error(&format!("cannot observe the initial staking state: {}", e)));
     // process_queue writes its (empty) queue on the first block update; start from a settled state
     let b0 = app0.block_info();
@@ -823,7 +829,7 @@ pub fn explore(ctx: &Ctx, nm: &Names, alpha: &[SOp], max_depth: usize, cfg: &Cfg
         let results: Vec<(Vec<SState>, u64, u64, u64)> = frontier
             .par_chunks(16)
             .map(|ch| {
-                let mut app = build(nm, cfg.funds);
+                let mut app = build(nm, cfg);
                 let mut v = vec![];
                 let (mut n_ok, mut n_err, mut n_tol) = (0u64, 0u64, 0u64);
                 for s in ch {
@@ -836,7 +842,7 @@ pub fn explore(ctx: &Ctx, nm: &Names, alpha: &[SOp], max_depth: usize, cfg: &Cfg
                     }
                     for op in alpha {
                         let mut rep = |class: &str, detail: Value| {
-                            if home(&prop, class) {
+                            if home(&prop, class) || (cfg.payout_is_home && class.starts_with("matured-unbonding-")) {
                                 ctx.violation(&format!("{}:{}", prop, class), detail)
                             }
                         };
@@ -879,10 +885,10 @@ pub fn explore(ctx: &Ctx, nm: &Names, alpha: &[SOp], max_depth: usize, cfg: &Cfg
             .map(|ch| {
                 let mut n = 0u64;
                 for s in ch {
-                    let mut app = build(nm, cfg.funds);
+                    let mut app = build(nm, cfg);
                     let b0 = app.block_info();
                     app.set_block(b0);
-                    let quiet_cfg = Cfg { check_rewards: false, prop: cfg.prop.clone(), funds: cfg.funds };
+                    let quiet_cfg = Cfg { check_rewards: false, prop: cfg.prop.clone(), funds: cfg.funds, unbonding: cfg.unbonding, payout_is_home: false };
                     let mut cur = SState { storage: app.storage().clone(), block: app.block_info(), hidden: Hidden::default(), obs: Obs::default(), path: vec![] };
                     cur.obs = observe(&app, nm).unwrap_or_default();
                     let mut good = true;
@@ -989,12 +995,12 @@ fn invalid_sweep(ctx: &Ctx, nm: &Names, states: &[SState], alpha: &[SOp], cfg: &
     states
         .par_chunks(32)
         .map(|ch| {
-            let mut app = build(nm, cfg.funds);
+            let mut app = build(nm, cfg);
             let mut n = 0u64;
             for s in ch {
                 for op in &inv {
                     let mut rep = |class: &str, detail: Value| {
-                        if home(&prop, class) {
+                        if home(&prop, class) || (cfg.payout_is_home && class.starts_with("matured-unbonding-")) {
                             ctx.violation(&format!("{}:{}", prop, class), detail)
                         }
                     };
@@ -1056,7 +1062,7 @@ fn std_assumptions() -> Vec<String> {
 
 pub fn run_c14(ctx: &Ctx) -> i32 {
     let nm = names();
-    let cfg = Cfg { check_rewards: false, prop: "C14".into(), funds: 10 };
+    let cfg = Cfg { check_rewards: false, prop: "C14".into(), funds: 10, unbonding: UNBONDING, payout_is_home: false };
     let reduced = alphabet_c14(Tier::Quick, false);
     let (d_reduced, d_full) = ctx.tier.pick((6, 0), (7, 6));
     let out1 = explore(ctx, &nm, &reduced, d_reduced, &cfg, true, ctx.tier.pick(600_000, 3_000_000));
@@ -1091,7 +1097,7 @@ pub fn alphabet_c16() -> Vec<SOp> {
 
 pub fn run_c16(ctx: &Ctx) -> i32 {
     let nm = names();
-    let cfg = Cfg { check_rewards: false, prop: "C16".into(), funds: 10 };
+    let cfg = Cfg { check_rewards: false, prop: "C16".into(), funds: 10, unbonding: UNBONDING, payout_is_home: false };
     let alpha = alphabet_c16();
     let depth = ctx.tier.pick(4, 5);
     let out = explore(ctx, &nm, &alpha, depth, &cfg, true, 2_000_000);
@@ -1112,7 +1118,7 @@ pub fn run_c16(ctx: &Ctx) -> i32 {
         .all
         .par_chunks(16)
         .map(|ch| {
-            let mut app = build(&nm, cfg.funds);
+            let mut app = build(&nm, &cfg);
             let mut n = 0u64;
             for s in ch {
                 for op in &slash_ops {
@@ -1150,16 +1156,30 @@ pub fn run_c16(ctx: &Ctx) -> i32 {
         SOp::Slash { v: 0, pct: 10 },
         SOp::Undelegate { d: 1, v: 0, amt: big, denom: 0 },
     ];
-    let cfg2 = Cfg { check_rewards: false, prop: "C16".into(), funds: 10 * big };
+    let cfg2 = Cfg { check_rewards: false, prop: "C16".into(), funds: 10 * big, unbonding: UNBONDING, payout_is_home: false };
     let out2 = explore(ctx, &nm, &alpha2, ctx.tier.pick(4, 6), &cfg2, false, 2_000_000);
+    // an unbonding period of zero: an unbonding is mature the moment it is queued, yet pending (and
+    // to be slashed) until the next block update pays it
+    let alpha3 = vec![
+        SOp::Delegate { d: 0, v: 0, amt: 4, denom: 0 },
+        SOp::Delegate { d: 1, v: 0, amt: 3, denom: 0 },
+        SOp::Undelegate { d: 0, v: 0, amt: 2, denom: 0 },
+        SOp::Undelegate { d: 1, v: 0, amt: 1, denom: 0 },
+        SOp::Slash { v: 0, pct: 50 },
+        SOp::Slash { v: 0, pct: 100 },
+        SOp::Advance { secs: 0 },
+        SOp::Advance { secs: 1 },
+    ];
+    let cfg3 = Cfg { check_rewards: false, prop: "C16".into(), funds: 10, unbonding: 0, payout_is_home: true };
+    let out3 = explore(ctx, &nm, &alpha3, ctx.tier.pick(4, 6), &cfg3, false, 2_000_000);
     finish(
         ctx,
-        vec![("slash-histories", &out, alpha.iter().map(sop_label).collect::<Vec<_>>()), ("sub-second-block-times-large-stakes", &out2, alpha2.iter().map(sop_label).collect::<Vec<_>>())],
+        vec![("slash-histories", &out, alpha.iter().map(sop_label).collect::<Vec<_>>()), ("sub-second-block-times-large-stakes", &out2, alpha2.iter().map(sop_label).collect::<Vec<_>>()), ("unbonding-period-zero", &out3, alpha3.iter().map(sop_label).collect::<Vec<_>>())],
         n,
         json!({"depth": depth, "slash_fractions_tried_in_every_state": fractions, "validators": ["v1", "v2", "unknown"], "then": "a second slash (25% of v1) and a block update maturing all unbondings"}),
         {
             let mut a = std_assumptions();
-            a.push("second exploration: block steps of 0.1 s and 0.75 s with stakes of 10^12 and 3*10^12".into());
+            a.push("second exploration: block steps of 0.1 s and 0.75 s with stakes of 10^12 and 3*10^12; third exploration: unbonding period 0 s".into());
             a
         },
     )
@@ -1188,7 +1208,7 @@ pub fn alphabet_c15(tier: Tier) -> Vec<SOp> {
 
 pub fn run_c15(ctx: &Ctx) -> i32 {
     let nm = names();
-    let cfg = Cfg { check_rewards: true, prop: "C15".into(), funds: 1000 };
+    let cfg = Cfg { check_rewards: true, prop: "C15".into(), funds: 1000, unbonding: UNBONDING, payout_is_home: false };
     let alpha = alphabet_c15(ctx.tier);
     let depth = ctx.tier.pick(5, 6);
     let out = explore(ctx, &nm, &alpha, depth, &cfg, true, 3_000_000);
@@ -1211,7 +1231,7 @@ pub fn run_c15(ctx: &Ctx) -> i32 {
         .all
         .par_chunks(16)
         .map(|ch| {
-            let mut app = build(&nm, cfg.funds);
+            let mut app = build(&nm, &cfg);
             let mut n = 0u64;
             for s in ch {
                 if s.obs.deleg.values().all(|v| *v == 0) {
@@ -1282,7 +1302,7 @@ pub fn run_c15(ctx: &Ctx) -> i32 {
         SOp::Withdraw { d: 1, v: 0 },
         SOp::Undelegate { d: 1, v: 0, amt: big, denom: 0 },
     ];
-    let cfg2 = Cfg { check_rewards: true, prop: "C15".into(), funds: 10 * big };
+    let cfg2 = Cfg { check_rewards: true, prop: "C15".into(), funds: 10 * big, unbonding: UNBONDING, payout_is_home: false };
     let out2 = explore(ctx, &nm, &alpha2, ctx.tier.pick(5, 6), &cfg2, false, 2_000_000);
     finish(
         ctx,
@@ -1302,9 +1322,9 @@ pub fn replay(ctx: &Ctx, case: &Value) {
     let nm = names();
     let prop = ctx.id.clone();
     let (cfg, mut all) = match prop.as_str() {
-        "C15" => (Cfg { check_rewards: true, prop: prop.clone(), funds: 1000 }, alphabet_c15(Tier::Thorough)),
-        "C16" => (Cfg { check_rewards: false, prop: prop.clone(), funds: 10 }, alphabet_c16()),
-        _ => (Cfg { check_rewards: false, prop: prop.clone(), funds: 10 }, alphabet_c14(Tier::Thorough, true)),
+        "C15" => (Cfg { check_rewards: true, prop: prop.clone(), funds: 1000, unbonding: UNBONDING, payout_is_home: false }, alphabet_c15(Tier::Thorough)),
+        "C16" => (Cfg { check_rewards: false, prop: prop.clone(), funds: 10, unbonding: UNBONDING, payout_is_home: false }, alphabet_c16()),
+        _ => (Cfg { check_rewards: false, prop: prop.clone(), funds: 10, unbonding: UNBONDING, payout_is_home: false }, alphabet_c14(Tier::Thorough, true)),
     };
     all.extend(invalid_ops());
     for v in 0..3u8 {
@@ -1312,7 +1332,7 @@ pub fn replay(ctx: &Ctx, case: &Value) {
             all.push(SOp::Slash { v, pct: p });
         }
     }
-    for s in [YEAR / 3, YEAR / 2, YEAR, 7, UNBONDING, YEAR / 6, YEAR / 9, YEAR / 4, 3, 2, 4, 1, 10 * YEAR] {
+    for s in [YEAR / 3, YEAR / 2, YEAR, 7, 0, UNBONDING, YEAR / 6, YEAR / 9, YEAR / 4, 3, 2, 4, 1, 10 * YEAR] {
         all.push(SOp::Advance { secs: s });
     }
     let big = 1_000_000_000_000u128;
@@ -1324,7 +1344,11 @@ pub fn replay(ctx: &Ctx, case: &Value) {
     if hist.iter().any(|o| matches!(o, SOp::Delegate { amt, .. } if *amt >= big)) {
         cfg.funds = 10 * big;
     }
-    let mut app = build(&nm, cfg.funds);
+    if let Some(u) = case["unbonding_s"].as_u64() {
+        cfg.unbonding = u;
+        cfg.payout_is_home = cfg.payout_is_home || (u == 0 && prop == "C16");
+    }
+    let mut app = build(&nm, &cfg);
     let b0 = app.block_info();
     app.set_block(b0);
     let mut cur = SState { storage: app.storage().clone(), block: app.block_info(), hidden: Hidden::default(), obs: observe(&app, &nm).unwrap_or_default(), path: vec![] };
